@@ -48,6 +48,19 @@ func (c pxCfg) String() string {
 	return s
 }
 
+// storeClass: metadata store and versioning are part of a C05 signature (the sidecar store and the versioning
+// bookkeeping have their own, separately listed, non-atomic windows).
+func storeClass(c pxCfg) string {
+	s := "xattr"
+	if c.Sidecar {
+		s = "sidecar"
+	}
+	if c.Versioning {
+		s += "+versioning"
+	}
+	return s
+}
+
 // pxStore is a real posix backend (two instances A,B on the same root stand
 // for two gateway processes sharing the storage).
 type pxStore struct {
@@ -575,7 +588,7 @@ func c05RunScenario(r *ck.Run, st *pxStore, scn c05Scn, bound int) {
 		bad := false
 		for _, rec := range recs {
 			if rec.Err != "" {
-				r.Violation(ck.JoinSig("op-failed", rec.Op.Kind, errClass(rec.Err), sigCtx(rec, onObj)), detail(rec, rec.Err))
+				r.Violation(ck.JoinSig(storeClass(st.Cfg), "op-failed", rec.Op.Kind, errClass(rec.Err), sigCtx(rec, onObj)), detail(rec, rec.Err))
 				outcome += rec.Op.Kind + ":ERR "
 				bad = true
 				continue
@@ -591,7 +604,7 @@ func c05RunScenario(r *ck.Run, st *pxStore, scn c05Scn, bound int) {
 			o := rec.Obs
 			switch {
 			case o.Err != "":
-				r.Violation(ck.JoinSig("read-failed", rec.Op.Kind, errClass(o.Err), sigCtx(rec, onObj)), detail(rec, o.Err))
+				r.Violation(ck.JoinSig(storeClass(st.Cfg), "read-failed", rec.Op.Kind, errClass(o.Err), sigCtx(rec, onObj)), detail(rec, o.Err))
 				outcome += rec.Op.Kind + ":ERR "
 				bad = true
 				continue
@@ -602,7 +615,7 @@ func c05RunScenario(r *ck.Run, st *pxStore, scn c05Scn, bound int) {
 				outcome += fmt.Sprintf("%s:b%d/e%d/m%d ", rec.Op.Kind, o.Body, o.ETag, o.Meta)
 				mixed := o.Body < 0 || o.ETag != o.Body || o.Size != o.Body || (o.Meta != -2 && (o.Meta != o.Body || o.CT != o.Body))
 				if mixed {
-					r.Violation(ck.JoinSig("mixed-read", rec.Op.Kind, sigCtx(rec, onObj)),
+					r.Violation(ck.JoinSig(storeClass(st.Cfg), "mixed-read", rec.Op.Kind, sigCtx(rec, onObj)),
 						detail(rec, fmt.Sprintf("body=%s etag=%s meta=%s ct=%s size=%s %s", vname(o.Body), vname(o.ETag), vname(o.Meta), vname(o.CT), vname(o.Size), o.Raw)))
 					bad = true
 					continue
@@ -634,7 +647,7 @@ func c05RunScenario(r *ck.Run, st *pxStore, scn c05Scn, bound int) {
 				if rec.Obs.Absent {
 					what = "absent"
 				}
-				r.Violation(ck.JoinSig(kind, rec.Op.Kind+"->"+what, sigCtx(rec, onObj)), detail(rec, "history has no linearization"))
+				r.Violation(ck.JoinSig(storeClass(st.Cfg), kind, rec.Op.Kind+"->"+what, sigCtx(rec, onObj)), detail(rec, "history has no linearization"))
 			}
 			for _, rec := range recs {
 				if !isRead(rec.Op.Kind) {
